@@ -39,3 +39,8 @@ claim("C14",
 claim("C12",
       "Decides on all paths of FindConfig the lookup order user[id], user[default], factory[id], factory[default] per device class (keyboard directories for keyboards, gamepad directories for joysticks), hit -> that entry with nil error, all-miss and other device types -> error; the directory/map/label table of the loader; per-file isolation in the walk callback (parse failure: skipped, nothing stored, walk continues; directories and non-.toml files unread); and the Walk-callback protocol (FileInfo used only after the error parameter was tested), with a positive/negative control.",
       COMMON_NOTE, "path-effect enumeration over go/ssa + constant-table cross-check + dominating-guard rule for Walk callbacks (with controls)")
+
+claim("C11",
+      "Decides the premises from which the 128-name bijection follows: the name pattern is anchored and consists of exactly a pitch and an octave group with small finite languages (regexp/syntax), the pitch lookup is checked on its miss edge (or the group's language is a subset of the table keys), the two tables are inverse bijections over the 12 chromatic names, the 8-bit formula with its range test accepts exactly the (octave, pitch) pairs whose mathematical value is in 0..127 and returns that value (the returned SSA term and its guards are evaluated abstractly over the groups' finite languages), and NoteToPitch/NoteToOctave invert it on 0..127.",
+      COMMON_NOTE + " regexp/syntax is used to read the constant pattern; strconv.Atoi and regexp matching semantics are trusted.",
+      "constant-table and regex-language analysis (go/ast, regexp/syntax) + abstract evaluation of SSA path terms over finite value sets")
